@@ -295,6 +295,19 @@ func c10Check(c c10Case) fw.Outcome {
 			return fw.Failf(label, "Search callback returned false on call %d but %d calls were made (%d hits)", c.Stop, calls, hits)
 		}
 	}
+	// the same search once more, after the early-stopped one: a search result does not depend on what was asked before
+	{
+		again := map[geojson.Object]int{}
+		cl.Search(q, func(child geojson.Object) bool { again[child]++; return true })
+		if len(again) != len(got) {
+			return fw.Failf(label, "Search(%v) reported %d distinct children, and %d when repeated after an early-stopped search; %s", q, len(got), len(again), collObj.JSON())
+		}
+		for o, n := range got {
+			if again[o] != n {
+				return fw.Failf(label, "Search(%v) repeated after an early-stopped search reports child %s %d times, before %d", q, o.JSON(), again[o], n)
+			}
+		}
+	}
 	// predicates against the probe
 	nt := len(cn.children) >= 2 && !cn.empty()
 	if r1, ok1 := cn.rect(); ok1 {
